@@ -176,14 +176,154 @@ impl Prop for Direct {
     }
 }
 
+
+// ------------------------------------------------------------------------------------------
+// race part: one inserting thread at the hard limit against one deleting / draining thread
+// ------------------------------------------------------------------------------------------
+
+#[derive(Clone, Debug, Serialize, Deserialize)]
+pub struct RCase {
+    pub hard: usize,
+    /// 0 delete, 1 batch delete, 2 filtered delete, 3 drain, 4 point reads
+    pub other: u8,
+    pub inserts: u8,
+    pub plan: Vec<(u32, u8)>,
+}
+
+pub struct Race;
+
+fn race_programs(engine: &std::sync::Arc<kyrodb_engine::TieredEngine>, case: &RCase, over: &std::sync::Arc<std::sync::Mutex<Option<String>>>) -> Vec<crate::common::sched::Program> {
+    let e1 = std::sync::Arc::clone(engine);
+    let e2 = std::sync::Arc::clone(engine);
+    let over = std::sync::Arc::clone(over);
+    let (hard, inserts, other) = (case.hard, case.inserts, case.other);
+    let a: crate::common::sched::Program = Box::new(move |t| {
+        for n in 0..inserts {
+            t.label("insert");
+            let id = 100 + n as u64;
+            let _ = e1.insert(id, vec![id as f32, 1.0], std::collections::HashMap::new());
+            // "when an insert returns": only this thread adds entries, the other one removes
+            let len = e1.hot_tier().len();
+            if len > hard {
+                *over.lock().unwrap() = Some(format!("insert({}) returned with {} entries in the recent-write tier (hard limit {})", id, len, hard));
+            }
+            t.yield_now();
+        }
+    });
+    let b: crate::common::sched::Program = Box::new(move |t| {
+        t.label("other");
+        match other {
+            0 => {
+                let _ = e2.delete(1);
+            }
+            1 => {
+                let _ = e2.batch_delete(&[1, 2]);
+            }
+            2 => {
+                let f = kyrodb_engine::proto::MetadataFilter { filter_type: Some(kyrodb_engine::proto::metadata_filter::FilterType::Exact(kyrodb_engine::proto::ExactMatch { key: "g".into(), value: "1".into() })) };
+                let _ = e2.batch_delete_by_metadata_filter(&f);
+            }
+            3 => {
+                let _ = e2.flush_hot_tier(true);
+            }
+            _ => {
+                let _ = e2.query(1, None);
+                let _ = e2.bulk_query_with_source(&[1, 2], true);
+            }
+        }
+        t.yield_now();
+    });
+    vec![a, b]
+}
+
+fn race_build(case: &RCase) -> Result<crate::common::tiered::Tiered, Failure> {
+    use crate::common::gens::Metric;
+    use crate::common::tiered::{Strat, Tiered, TieredCfg};
+    let cfg = TieredCfg { metric: Metric::Euclidean, dim: 2, strat: Strat::Lru, l1a_cap: 2, qcache_cap: 2, qcache_sim: 1.0, hot_soft: 1, hot_hard: case.hard, capacity: 256, ef_search: 16, persist: false, snapshot_interval: 0, rotate_bytes: 1 << 20 };
+    let t = Tiered::build(&cfg, None, &[1, 2, 3]).map_err(|e| Failure::new("setup_failed", format!("{:#}", e)))?;
+    // fill the recent-write tier exactly to its hard limit
+    for i in 1..=case.hard as u64 {
+        let mut m = std::collections::HashMap::new();
+        m.insert("g".to_string(), (i % 2).to_string());
+        t.engine.insert(i, vec![i as f32, 0.0], m).map_err(|e| Failure::new("setup_failed", format!("{:#}", e)))?;
+    }
+    Ok(t)
+}
+
+impl Prop for Race {
+    type Case = RCase;
+    fn part(&self) -> &'static str {
+        "race"
+    }
+    fn shape(&self, _tier: Tier) -> RawShape {
+        RawShape { head_len: 1, chunk_len: 1, min_chunks: 0, max_chunks: 0 }
+    }
+    fn max_shrink_iters(&self) -> u32 {
+        0
+    }
+    fn rule(&self) -> String {
+        "recent-write tier filled exactly to its hard limit {1,2,5}; one thread inserts 1-2 new ids (each insert must drain first) against one thread running delete / batch delete / filtered delete / drain / reads, every single-preemption schedule; the inserting thread reads the tier size right after each insert returns (only it adds entries); every case is non-trivial".into()
+    }
+    fn decode(&self, _raw: &Raw, _tier: Tier) -> RCase {
+        RCase { hard: 1, other: 0, inserts: 1, plan: vec![] }
+    }
+    fn run(&self, case: &RCase, _env: &CaseEnv) -> Result<CaseReport, Failure> {
+        let t = race_build(case)?;
+        let over = std::sync::Arc::new(std::sync::Mutex::new(None));
+        let out = crate::common::sched::run(race_programs(&t.engine, case, &over), &case.plan);
+        match out.outcome {
+            crate::common::sched::Outcome::Finished => {}
+            crate::common::sched::Outcome::Hang => return Err(Failure::new("setup_failed", "run did not finish within the watchdog".to_string())),
+            crate::common::sched::Outcome::Deadlock(_) => return Ok(CaseReport { excluded: vec!["deadlock".into()], ..Default::default() }),
+        }
+        if let Some(msg) = over.lock().unwrap().clone() {
+            return Err(Failure::new("hot_tier_over_hard_limit", format!("{} (other thread: {:?}, plan {:?})", msg, case.other, case.plan)).with_sig(json!({"kind": "hot_tier_over_hard_limit", "concurrent": true})));
+        }
+        Ok(CaseReport { nontrivial: true, ..Default::default() })
+    }
+}
+
+fn race_cases(ctx: &Ctx) -> Vec<RCase> {
+    let mut out = vec![];
+    for hard in [1usize, 2, 5] {
+        for other in 0..5u8 {
+            for inserts in 1..=2u8 {
+                let base = RCase { hard, other, inserts, plan: vec![] };
+                out.push(base.clone());
+                if let Ok(t) = race_build(&base) {
+                    let over = std::sync::Arc::new(std::sync::Mutex::new(None));
+                    let o = crate::common::sched::run(race_programs(&t.engine, &base, &over), &[]);
+                    for (d, (alts, me_ready)) in o.trace.iter().enumerate() {
+                        if *alts > 1 && *me_ready {
+                            let mut c = base.clone();
+                            c.plan = vec![(d as u32, 1)];
+                            out.push(c);
+                        }
+                    }
+                }
+            }
+        }
+    }
+    let _ = ctx;
+    out
+}
+
 pub fn main(ctx: &Ctx) {
     ctx.assume("AbTestSplitter owns two caches of the configured capacity each, so its size bound is 2 x capacity");
     run_committed_replays(ctx, &C20);
     run_committed_replays(ctx, &Direct);
     run_pbt(ctx, &C20, ctx.tier.pick(100_000, 2_000_000));
     run_pbt(ctx, &Direct, ctx.tier.pick(150_000, 3_000_000));
+    // the hard limit while another thread deletes / drains (scheduler engine)
+    crate::common::sched::install();
+    run_committed_replays(ctx, &Race);
+    let cases = race_cases(ctx);
+    run_cases(ctx, &Race, "race", cases, true);
 }
 
 pub fn replay(ctx: &Ctx, v: &serde_json::Value) -> Option<i32> {
-    replay_file(ctx, &C20, v).or_else(|| replay_file(ctx, &Direct, v))
+    replay_file(ctx, &C20, v).or_else(|| replay_file(ctx, &Direct, v)).or_else(|| {
+        crate::common::sched::install();
+        replay_file(ctx, &Race, v)
+    })
 }
